@@ -13,7 +13,7 @@ Definition cfg_truthy : config := {|
   map_keys := NSelfFreevars; select_by := NFactoryFreevars; len_check := Some (LSelected, LClosureArg);
   ft_closure := ClSelected; defaults_guard := GTruthy; kwdefaults_guard := GTruthy;
   wrap_module := [MFuture; MDef NOuter PNone [ODummies; ODef NInner PFactoryArgs [IEntity; IRet NEntity]; ORet NInner]];
-  erase_defaults := EraseAll; erase_kwdefaults := ErasePresent; erase_const := EConstNone;
+  erase_defaults := EraseAll; erase_kwdefaults := ErasePresent; erase_const := EConstNone; erase_kwconst := EConstNone;
   erase_before_transform := true; deco_top := DecoClear; deco_nested := DecoAppendArtifact; deco_level := 2 |}.
 
 Theorem defaults_cleared_refuted : exists o e c,
